@@ -76,12 +76,24 @@ def root_cls():
             return [i for i in range(N) if dig(self.store[i]) != self.pristine[i]] if hasattr(self, "store") else []
 
         def _fresh_x(self, idx):
-            if self.kind == "T3_distinct":  # for the mix wrapper the partner must be visible in the result
+            if self.kind in ("T3_distinct", "T3_distinct_soft"):  # for the mix wrapper the partner must be visible in the result
                 return cat.inputs("T3", int(idx))
             return cat.inputs(self.kind, 0)  # identical data for every index
 
         def getitem_class(self, idx, ctx=None):
+            if self.kind == "T3_distinct_soft":
+                # labels that already are probability vectors (float32), kept in memory like the samples
+                if _STORED[0]:
+                    if not hasattr(self, "label_store"):
+                        self.label_store = {i: self._fresh_label(i) for i in range(N)}
+                    return self.label_store[int(idx)]
+                return self._fresh_label(idx)
             return int(idx) % 3 if self.kind == "T3_distinct" else 1
+
+        def _fresh_label(self, idx):
+            v = torch.full((3,), 0.1)
+            v[int(idx) % 3] = 0.8
+            return v
 
         def getitem_semseg(self, idx, ctx=None):
             return cat.inputs("PAIR", 0)[1]
@@ -188,6 +200,9 @@ def make_special(name):
     if name == "mix":
         return ModeWrapper(KDMixWrapper(Root("T3_distinct"), mixup_p=1.0, mixup_alpha=0.8, seed=seed_value()), "x class",
                            return_ctx=True), list(range(N))
+    if name == "mix_soft":
+        return ModeWrapper(KDMixWrapper(Root("T3_distinct_soft"), mixup_p=1.0, mixup_alpha=0.8, seed=seed_value()), "x class",
+                           return_ctx=True), list(range(N))
     if name == "mix_p05":
         return ModeWrapper(KDMixWrapper(Root("T3_distinct"), mixup_p=0.5, mixup_alpha=0.8, seed=seed_value(1)), "class x",
                            return_ctx=True), list(range(N))
@@ -273,7 +288,7 @@ def probe_like_color():
     return KDRandomColorJitter(p=0.8, brightness=0.4, contrast=0.4)
 
 
-SPECIALS = ("multiview_plain_first", "multiview_plain_middle", "shared_transform_pair", "shared_transform_pair_nested", "shared_transform_pair_multiview", "shared_transform_stacked",
+SPECIALS = ("mix_soft", "multiview_plain_first", "multiview_plain_middle", "shared_transform_pair", "shared_transform_pair_nested", "shared_transform_pair_multiview", "shared_transform_stacked",
             "shared_transform_stacked_nested", "mix", "mix_p05", "other_items", "semseg", "semseg_nested", "semseg_scheduled", "byol_multiview", "mugs_multiview", "imagenet_minaug_multiview", "imagenet_minaug_xtransform")
 
 
